@@ -445,7 +445,7 @@ def run_hist(ctx, h, m):
     cases = load_hist_corpus(os.path.join(vlib.ROOT, "corpus", "C02.subhist.txt"))
     ncorpus = len(cases)
     dist = {}
-    for n in range(ctx.n(20, 2500)):
+    for n in range(ctx.n(16, 2500)):
         g = Gen(rng)
         tb = g.tables()
         qs = g.questions(tb)
@@ -799,7 +799,7 @@ def run_ifc(ctx, elk, h, m):
     ncorpus = len(progs)
     dist = {}
     raw = []
-    for n in range(ctx.n(12, 1500)):
+    for n in range(ctx.n(10, 1500)):
         g = Gen(rng)
         tb = g.tables()
         ws, cands = gen_prog(g, tb)
@@ -1082,6 +1082,201 @@ def run_ifc(ctx, elk, h, m):
         ctx.broke("correspondence %s: fewer than half of the programs were executed (%d of %d)" % (IFC, st["executed"], st["programs"]))
 
 
+# ------------------------------------------------------------------ c02.ifcrec
+
+REC = "c02.ifcrec"
+KNOWN_REC = "ifc-rec:nested-instantiation-of-self-referential-interface-not-checked"
+
+
+def rec_source(tb, s0, t0, lit, s, t, item, rets):
+    """one generic class K1 / interface I1 (base methods of tb) plus `def m9: I1[t0]` / `def m9: K1[s0] then K1::[s0](lit)`"""
+    out = []
+    for line in tb.decls():
+        if line == "end":
+            if out and out[0].startswith("interface") and not any(l.startswith("class") for l in out):
+                out.append("  def m9: I1[%s]; end" % elk_bty(t0))
+            else:
+                out.append("  def m9: K1[%s] then K1::[%s](%s)" % (elk_bty(s0), elk_bty(s0), tb.lit(lit[0], lit[1])))
+        out.append(line)
+    out += PRELUDE.rstrip("\n").split("\n")
+    out.append("def w0(s: I1[%s])" % elk_bty(t))
+    for k, (n, ats) in enumerate(rets):
+        out.append("  var t0_%d: %s = s.m9.m%d" % (k, elk_atoms(ats), n))
+        out.append('  println("P0_%d " + pr(t0_%d))' % (k, k))
+    out.append("  nil")
+    out.append("end")
+    out.append('println("C0")')
+    out.append("w0(K1::[%s](%s))" % (elk_bty(s), tb.lit(item[0], item[1])))
+    return "\n".join(out) + "\n"
+
+
+def rec_case_sx(c):
+    tb, s0, t0, lit, s, t, item = c
+    return ["irec", tb.sx(), s0, t0, [lit[0], str(lit[1])], s, t, [item[0], str(item[1])]]
+
+
+def gen_rec(g):
+    r = g.r
+    rets = [r.choice(["T", "T", "T", ["or", "T", "nil"], ["or", "T", "Int"], "Int"]) for _ in range(r.range(1, 2))]
+    ims = [(n, None, rt) for n, rt in enumerate(rets)]
+    cms = []
+    for n, p, rt in ims:
+        p2, r2 = g.mutate_sig(None, rt) if r.chance(1, 4) else (None, rt)
+        cms.append((n, p2, r2, g.body_for(p2, r2)))
+    tb = Tables({1: dict(generic=True, fixed=None, methods=cms)}, {1: dict(generic=True, fixed=None, methods=ims)})
+    s0 = r.choice(ARGS)
+    t0 = r.choice(ARGS) if r.chance(3, 4) else s0
+    t = r.choice(ARGS)
+    s = t if r.chance(3, 4) else r.choice(ARGS)
+    # the object `m9` returns holds an item of s0 - preferably one that is NOT in t0
+    outside = [a for a in atoms_of(s0) if a not in atoms_of(t0)]
+    at = r.choice(outside or atoms_of(s0))
+    lit = (at, r.range(1, 9) if at != "nil" else 0)
+    at2 = r.choice(atoms_of(s))
+    item = (at2, r.range(10, 99) if at2 != "nil" else 0)
+    g.count("nested-pair:" + ("same-arguments" if sx_str(s0) == sx_str(t0) else "item-outside-t0" if outside else "s0-within-t0"))
+    return (tb, s0, t0, lit, s, t, item)
+
+
+def run_rec(ctx, elk, m):
+    rng = ctx.rng(REC)
+    cases = []
+    path = os.path.join(vlib.ROOT, "corpus", "C02.ifcrec.txt")
+    if os.path.exists(path):
+        for n, line in enumerate(open(path)):
+            line = line.strip()
+            if line and not line.startswith("#"):
+                x = sx_parse(line)
+                cases.append(("rk%d" % n, (Tables.from_sx(x[1]), x[2], x[3], (x[4][0], int(x[4][1])), x[5], x[6],
+                                           (x[7][0], int(x[7][1])))))
+    ncorpus = len(cases)
+    dist = {}
+    for n in range(ctx.n(5, 600)):
+        g = Gen(rng)
+        cases.append(("rg%d" % n, gen_rec(g)))
+        for k, v in g.dist.items():
+            dist[k] = dist.get(k, 0) + v
+    q_ids, q_in = [], {}
+    for cid, (tb, s0, t0, lit, s, t, item) in cases:
+        gs = sx_str(tb.sx())
+        for fx in ("fixed", "found"):
+            q = "%s.%s" % (cid, fx)
+            q_ids.append(q)
+            q_in[q] = "(irsub %s %s %s %s (%s %d) %s %s)" % (fx, gs, sx_str(s0), sx_str(t0), lit[0], lit[1], sx_str(s), sx_str(t))
+        for n, p, rt in tb.ifaces[1]["methods"]:
+            q_ids.append("%s.r.%d" % (cid, n))
+            q_in["%s.r.%d" % (cid, n)] = "(iret %s (i 1 %s) %d)" % (gs, sx_str(t0), n)
+            q_ids.append("%s.c.%d" % (cid, n))
+            q_in["%s.c.%d" % (cid, n)] = "(ircall %s %s %s (%s %d) %d)" % (gs, sx_str(s0), sx_str(t0), lit[0], lit[1], n)
+    rc, ans, mout = vlib.run_model(m, q_ids, q_in)
+    if rc != 0:
+        ctx.broke("correspondence %s: model driver exited %d" % (REC, rc), mout[-2000:])
+        return
+    st = dict(cases=0, model_fixed_accepts=0, model_fixed_rejects=0, as_found_rule_differs=0, impl_accepts=0, impl_rejects=0,
+              executed=0, member_checks=0)
+    srcs, meta = [], {}
+    for cid, c in cases:
+        tb, s0, t0, lit, s, t, item = c
+        fixed, found = ans.get(cid + ".fixed"), ans.get(cid + ".found")
+        if fixed not in ("ok", "reject") or found not in ("ok", "reject"):
+            ctx.broke("correspondence %s: model gave no verdict (%r)" % (REC, fixed), sx_str(rec_case_sx(c))[:600])
+            continue
+        rets = []
+        for n, p, rt in tb.ifaces[1]["methods"]:
+            a = ans.get("%s.r.%d" % (cid, n), "")
+            rets.append((n, sx_parse(a)[1:] if a.startswith("(atoms") else []))
+        src = rec_source(tb, s0, t0, lit, s, t, item, rets)
+        srcs.append((cid, src))
+        meta[cid] = (c, fixed, found, rets, src)
+        st["cases"] += 1
+        st["model_fixed_accepts" if fixed == "ok" else "model_fixed_rejects"] += 1
+        if fixed != found:
+            st["as_found_rule_differs"] += 1
+    res = vlib.run_programs(elk, srcs, os.path.join(ctx.workdir, "ifcrec"), timeout=90, env={"GOMAXPROCS": "4"})
+    evaluations = 0
+    distinct = set()
+    mem_ids, mem_in, pending = [], {}, []
+    for cid, (c, fixed, found, rets, src) in meta.items():
+        tb, s0, t0, lit, s, t, item = c
+        case = sx_str(rec_case_sx(c))
+        rc_, out, cls_ = res[cid]
+        if cls_ == "timeout":
+            ctx.broke("correspondence %s: program timed out" % REC, src)
+            continue
+        rejected = "[FAIL]" in out
+        st["impl_rejects" if rejected else "impl_accepts"] += 1
+        evaluations += 1
+        distinct.add(case)
+        if rejected:
+            if fixed == "ok":
+                mm = re.search(r"\[FAIL\] ([^\n]*)", out)
+                ctx.fail("ifc-rec:impl-rejects:model-accepts:" + re.sub(r"`[^`]*`", "`..`", mm.group(1) if mm else "?")[:60],
+                         "the co-inductive structural rule (extracted rsub fixed) accepts, the real checker rejects:\n" + src + out.strip()[:500],
+                         stream=REC, case=case, impl="rejected", model="ok", oracle="model and real checker agree")
+            continue
+        if fixed != "ok":
+            key = KNOWN_REC if found == "ok" else "ifc-rec:impl-accepts:model-rejects"
+            ctx.fail(key, "`K1::[%s](..)` is accepted for `s: I1[%s]`; %s\n%s%s"
+                     % (elk_bty(s), elk_bty(t),
+                        "K1#m9 returns K1[%s] where I1#m9 promises I1[%s], a pair that does not conform (extracted rsub fixed rejects; "
+                        "the rule as found, proved unsound in C02_iface_rec_guard_refuted, accepts)" % (elk_bty(s0), elk_bty(t0))
+                        if found == "ok" else "both extracted rules reject", src, out.strip()[:300]),
+                     stream=REC, case=case, impl="accepted", model="reject",
+                     oracle="an argument is accepted only if its type conforms to the parameter type, nested instantiations included")
+        if cls_ in ("go_panic", "go_fatal", "signal") or rc_ != 0:
+            if fixed == "ok":
+                ctx.fail("ifc-rec:run:error", "accepted program does not run to the end:\n" + src + out.strip()[-400:], stream=REC,
+                         case=case, impl=out.strip()[-300:], model="runs", oracle="accepted programs of the fragment run")
+            continue
+        st["executed"] += 1
+        for l in out.splitlines():
+            mm = re.match(r"^P0_(\d+) (Std::\w+) (.*)$", l)
+            if not mm:
+                continue
+            k = int(mm.group(1))
+            n, ats = rets[k]
+            val = parse_value(mm.group(2), mm.group(3))
+            evaluations += 1
+            if val is None:
+                ctx.fail("ifc-rec:value:unparsable", "probe printed %s\n%s" % (l, src), stream=REC, case=case, impl=l, model="",
+                         oracle="output format")
+                continue
+            want = ans.get("%s.c.%d" % (cid, n))
+            if want != "(%s %d)" % val:
+                ctx.fail("ifc-rec:value:result-differs", "probe P0_%d: implementation %s, extracted rcall %s\n%s" % (k, l, want, src),
+                         stream=REC, case=case, impl=l, model=str(want), oracle="reference interpreter (rcall)")
+            tsx = None
+            for a in ats:
+                tsx = a if tsx is None else ["or", tsx, a]
+            q = "%s.m.%d" % (cid, k)
+            mem_ids.append(q)
+            mem_in[q] = "(imem %s (b %s) (vb %s %d))" % (sx_str(tb.sx()), sx_str(tsx), val[0], val[1])
+            pending.append((q, cid, k, ats, l, fixed, found, src, case))
+    rc, mans, mout = vlib.run_model(m, mem_ids, mem_in)
+    for q, cid, k, ats, l, fixed, found, src, case in pending:
+        a = mans.get(q)
+        st["member_checks"] += 1
+        if a == "in":
+            continue
+        if a != "out":
+            ctx.broke("correspondence %s: membership query failed (%r)" % (REC, a))
+            continue
+        if fixed == "ok":
+            ctx.broke("model contradicts C02_iface_rec_fixed_sound", case)
+        ctx.fail(KNOWN_REC if (fixed != "ok" and found == "ok") else "ifc-rec:member:value-outside-static-type",
+                 "`t0_%d` (= s.m9.m..) has static type %s, accepted by the real checker, but holds %s at run time:\n%s"
+                 % (k, elk_atoms(ats), l.split(" ", 1)[1], src), stream=REC, case=case, impl=l, model="not a member of " + elk_atoms(ats),
+                 oracle="runtime value is a member of the static type (extracted bmem)")
+    ctx.stream(REC, evaluations, len(distinct),
+               "self-referential interfaces: one generic interface I1[T] (1-2 parameterless methods over T, T | nil, T | Int, Int) "
+               "plus `def m9: I1[t0]`, one generic class K1[T] with (mostly conforming) implementations plus `def m9: K1[s0] then "
+               "K1::[s0](lit)`, lit preferably of an atom outside t0; `def w0(s: I1[t])` probes `s.m9.m<k>` annotated with the "
+               "static type R[t0] (extracted ret_atoms) and is called with K1::[s](item). Checker verdict (elk run) vs extracted "
+               "rsub fixed (nested pair compared with its own arguments); printed values vs extracted rcall and membership in "
+               "the static type (extracted bmem). evaluation = one verdict or one executed probe; non-trivial = distinct case",
+               [{"program": meta[cid][4][:1200]} for cid in list(meta)[ncorpus:ncorpus + 2]], dict(nodes=dist, corpus=ncorpus, **st))
+
+
 def run_streams(ctx, elk, h, m):
     """both streams; their first-pass checker runs share ONE harness process (its start-up dominates)"""
     gens = [run_hist(ctx, h, m), run_ifc(ctx, elk, h, m)]
@@ -1098,3 +1293,4 @@ def run_streams(ctx, elk, h, m):
             g.send(got)
         except StopIteration:
             pass
+    run_rec(ctx, elk, m)
